@@ -156,6 +156,9 @@ SLOT_CLASS = {"field": "record-field", "vecitem": "nested-container", "mapval": 
 TYPE_VIOLATIONS = {
     "unknown-type": ["Missing", "Missing*", "\"Missing?\"", "\"Missing[2]\"", "\"string->Missing\""],
     "unknown-namespace": ["Nowhere.Thing"],
+    # names that mean something elsewhere: type parameters of generic definitions in this or another file / package ({TP} = T where
+    # no enclosing definition declares it), a namespace on its own, an enum symbol, a field name
+    "unknown-type-named-like-foreign-symbol": ["K", "\"V?\"", "{TP}", "\"{TP}*\"", "Imp", "Imp2", "Main", "red", "plain2"],
     "generic-arity-too-many": ["\"{G}<int, int>\""],
     "generic-arity-missing": ["{G}"],
     "generic-arity-on-nongeneric": ["\"{R}<int>\"", "\"int<int>\"", "\"Color<int>\""],
@@ -289,7 +292,9 @@ def mutants(tier):
                     continue
                 if rule == "protocol-as-type" and not f.startswith("main"):
                     continue
-                text = sn.replace("{G}", g or "").replace("{R}", r)
+                if "{TP}" in sn and slot in ("ingeneric", "ingenericalias", "impvec"):
+                    continue
+                text = sn.replace("{G}", g or "").replace("{R}", r).replace("{TP}", "T")
                 if slot in ("ingeneric", "ingenericalias", "impvec") and rule in ("generic-arity-missing",):
                     pass
                 out.append({"rule": rule, "position": SLOT_CLASS[slot], "file": f, "slot": {slot: text}, "defs": {}})
